@@ -48,6 +48,8 @@ var optSets = []conv.Options{
 	{Int642String: true},
 	{DisallowUnknownField: true},
 	{Int642String: true, DisallowUnknownField: true},
+	{UseNativeSkip: true},
+	{UseNativeSkip: true, Int642String: true},
 }
 
 func optName(o conv.Options) string {
@@ -57,6 +59,9 @@ func optName(o conv.Options) string {
 	}
 	if o.DisallowUnknownField {
 		s = append(s, "DisallowUnknownField")
+	}
+	if o.UseNativeSkip {
+		s = append(s, "UseNativeSkip")
 	}
 	if len(s) == 0 {
 		return "default"
@@ -107,7 +112,7 @@ func convCaseP(cc *pj.ConvCase, unknown, primed bool) core.Case {
 			if input == nil {
 				_, input = build()
 			}
-			return caseDesc{cc.What, "all 4 subsets of {Int642String, DisallowUnknownField}", cc.Prog.SourceDump(), hexs(input)}
+			return caseDesc{cc.What, "all 4 subsets of {Int642String, DisallowUnknownField} + UseNativeSkip with and without Int642String", cc.Prog.SourceDump(), hexs(input)}
 		},
 		Run: func() core.Result {
 			r := core.Result{Class: "ok", Key: cc.Prog.Name + "|" + cc.What}
@@ -257,7 +262,7 @@ func convCaseP(cc *pj.ConvCase, unknown, primed bool) core.Case {
 					// optSets: 0 default, 1 Int642String, 2 DisallowUnknownField, 3 both. The defect is attributed to
 					// the smallest option subset that shows it.
 					dup := false
-					for _, sub := range [][]int{nil, {0}, {0}, {0, 1, 2}}[oi] {
+					for _, sub := range [][]int{nil, {0}, {0}, {0, 1, 2}, {0}, {0, 1, 4}}[oi] {
 						if seenBy[sub] != nil && seenBy[sub][v.Sig] {
 							dup = true
 						}
@@ -353,6 +358,39 @@ var unknowns = []unk{
 	}},
 	{"bool", "varint", func(n int) *pj.Field { return pj.F("u_x", n, pj.Bool) }, func(m protoreflect.Message, fd protoreflect.FieldDescriptor) {
 		m.Set(fd, protoreflect.ValueOfBool(true))
+	}},
+	// varints with a 0x80 byte before the last one (80 01, 80 1a, 80 80 01, ff 80 80 01): a skipper that looks for the
+	// first byte <= 0x80 instead of < 0x80 stops inside them
+	{"int64-128", "varint", func(n int) *pj.Field { return pj.F("u_x", n, pj.Int64) }, func(m protoreflect.Message, fd protoreflect.FieldDescriptor) {
+		m.Set(fd, protoreflect.ValueOfInt64(128))
+	}},
+	{"int64-3328", "varint", func(n int) *pj.Field { return pj.F("u_x", n, pj.Int64) }, func(m protoreflect.Message, fd protoreflect.FieldDescriptor) {
+		m.Set(fd, protoreflect.ValueOfInt64(3328))
+	}},
+	{"int64-16384", "varint", func(n int) *pj.Field { return pj.F("u_x", n, pj.Int64) }, func(m protoreflect.Message, fd protoreflect.FieldDescriptor) {
+		m.Set(fd, protoreflect.ValueOfInt64(16384))
+	}},
+	// 80 10 05: behind the 0x80 byte stands what reads as "field 2 (a_f / x_f), varint, value 5"
+	{"int64-83968", "varint", func(n int) *pj.Field { return pj.F("u_x", n, pj.Int64) }, func(m protoreflect.Message, fd protoreflect.FieldDescriptor) {
+		m.Set(fd, protoreflect.ValueOfInt64(83968))
+	}},
+	// a two-byte varint 80 XX whose second byte is the tag of the known string field right behind it, and that
+	// string is one byte shorter than its own tag byte says when read as a length (Sub: 80 22 | 22 21 <33 bytes>,
+	// T: 80 32 | 32 31 <49 bytes>): a skipper that stops at the 0x80 byte reads a well-formed but different message
+	{"int64-aligned-with-next-string", "varint", func(n int) *pj.Field { return pj.F("u_x", n, pj.Int64) }, func(m protoreflect.Message, fd protoreflect.FieldDescriptor) {
+		fs := m.Descriptor().Fields()
+		if y := fs.ByName("y_f"); y != nil {
+			m.Set(fd, protoreflect.ValueOfInt64(0x22<<7))
+			m.Set(y, protoreflect.ValueOfString(strings.Repeat("y", 33)))
+		} else {
+			m.Set(fd, protoreflect.ValueOfInt64(0x32<<7))
+			l := m.Mutable(fs.ByName("l_f")).List()
+			l.Truncate(0)
+			l.Append(protoreflect.ValueOfString(strings.Repeat("l", 49)))
+		}
+	}},
+	{"uint64-2097279", "varint", func(n int) *pj.Field { return pj.F("u_x", n, pj.Uint64) }, func(m protoreflect.Message, fd protoreflect.FieldDescriptor) {
+		m.Set(fd, protoreflect.ValueOfUint64(0x7f|0<<7|0<<14|1<<21))
 	}},
 	{"fixed32", "fixed32", func(n int) *pj.Field { return pj.F("u_x", n, pj.Fixed32) }, func(m protoreflect.Message, fd protoreflect.FieldDescriptor) {
 		m.Set(fd, protoreflect.ValueOfUint32(0xfffffff0))
